@@ -327,6 +327,7 @@ func (e *FnEnc) emb(ref string, fld int) string {
 		e.uf("emb_par", []string{"Int"}, "Int")
 		e.uf("emb_fld", []string{"Int"}, "Int")
 		e.specDefs = append(e.specDefs, "(assert (forall ((r Int) (j Int)) (! (and (= (emb_par (emb r j)) r) (= (emb_fld (emb r j)) j) (not (= (emb r j) 0))) :pattern ((emb r j)))))")
+		e.allocClosureAxioms()
 	}
 	return fmt.Sprintf("(%s %s %d)", f, ref, fld)
 }
@@ -341,6 +342,8 @@ func (e *FnEnc) eaddr(base, idx string) string {
 		// references that are not element slots have base 0 (eaddr_base/eaddr_idx are the inverse of eaddr on
 		// its image and constant outside it): a slot of a fresh array is therefore never an old object
 		e.specDefs = append(e.specDefs, "(assert (forall ((r Int)) (! (=> (not (= (eaddr_base r) 0)) (= r (eaddr (eaddr_base r) (eaddr_idx r)))) :pattern ((eaddr_base r)))))")
+		// an element slot is allocated at entry exactly when its array is: a fresh object is never an old slot
+		e.allocClosureAxioms()
 	}
 	return "(" + f + " " + base + " " + idx + ")"
 }
